@@ -12,6 +12,14 @@ static void c05_run(vf_case *c)
     g.values = rng_pick(r, vals, 9); g.explicit_zeros = 0;
     if (P->rsz == 4) g.scale_exp = rng_int(r, 1, 4); else g.scale_exp = rng_int(r, 1, 20);
     vf_mat A; gen_matrix(r, P, &g, &A);
+    /* columns in wildly different units (10^+E and 10^-E with 2E beyond the exponent range): every row-scaled entry of a small
+       column underflows, ?gsequ reports that column as zero and the driver must go on WITHOUT equilibration (equed = 'N') */
+    int hugecol = A.n >= 2 && rng_bool(r, 0.04);
+    if (hugecol) {
+        int E = P->rsz == 4 ? 15 : 165; int jbig = rng_int(r, 0, A.n - 1);
+        for (int j = 0; j < A.n; j++) { ld sc = powl(10.0L, (ld)((j == jbig || rng_bool(r, 0.4)) ? E : -E)); for (int_t k = A.colptr[j]; k < A.colptr[j + 1]; k++) A.v[k] = P->round(A.v[k] * sc); }
+        g.values = VAL_UNIF; vf_tag(c, "columns-beyond-exponent-range");
+    }
     gen_run_opts(r, &o, 1);
     o.nrhs = rng_int(r, 1, 3);
     gen_tuning(r, o.tuning_small);
@@ -28,6 +36,7 @@ static void c05_run(vf_case *c)
     int use_ws = rng_bool(r, 0.25); void *work = NULL;
     if (use_ws) { D.lwork = (int_t)generous_lwork(P, n, A.nnz); work = vf_ws_alloc(c, (size_t)D.lwork); D.work = work; }
 
+    { static const char stale[] = "NRCBNX"; D.equed[0] = stale[rng_int(r, 0, 5)]; }     /* equed is an output for a fresh factorization: whatever an earlier call left there must not survive */
     xdrv_call(&D, &xo);
 
     int_t info = D.info;
@@ -53,6 +62,7 @@ static void c05_run(vf_case *c)
                 if (!(n * P->eps * cond * sigma < 1e-2L)) judge = 0;
             }
             if (info == n + 1 && xo.IterRefine != NOREFINE) judge = 0;
+            if (hugecol) judge = 0;       /* products over- and underflow by construction: only the equed / A / B contract is judged on these inputs */
             if (judge) {
                 ld q = xdrv_scaled_residual(&D, xo.Trans, cf, &nonfin);
                 int cplx_nr_conj = P->cplx && o.rowmajor && xo.Trans == CONJ;
@@ -64,7 +74,7 @@ static void c05_run(vf_case *c)
             } else { vf_tag(c, "residual=skipped-by-conditioning-rule"); c->counters[2]++; }
         }
         /* another right-hand side with the factors, equed, R and C of the call above (Fact = FACTORED), any Trans */
-        if (info == 0 && c->verdict != 1 && rng_bool(r, 0.4)) {
+        if (info == 0 && c->verdict != 1 && !hugecol && rng_bool(r, 0.4)) {
             superlu_options_t x2 = xo; x2.Fact = FACTORED; x2.Trans = (trans_t)rng_int(r, 0, 2); x2.IterRefine = rng_bool(r, 0.5) ? NOREFINE : xo.IterRefine;
             ldc *B1 = malloc(sizeof(ldc) * (size_t)n * (nrhs + 1)); DNformat *bs = D.B.Store;
             for (int j = 0; j < nrhs; j++) for (int i = 0; i < n; i++) { B1[(size_t)j * n + i] = P->round((2 * rng_unif(r) - 1) + (P->cplx ? (2 * rng_unif(r) - 1) * I : 0)); P->set(bs->nzval, (size_t)j * bs->lda + i, B1[(size_t)j * n + i]); }
